@@ -15,7 +15,7 @@ META = {
     "quick_configs": ["default", "allfeat"],   # the mmap and parallel access paths only exist with their cargo features on
     "level": "other",
     "technique": "per-variant width tables extracted from match arms (typed HIR, wire widths) compared across four sibling functions + header wire agreement + who-may-call on the shared decoder",
-    "claim": "Decides that all nine FieldType variants have one width across size/decode/encode/default tables, that header write order/widths equal header read, that the written field_count follows the validator's counting rule, that all access paths share one decoder, and that string interning is insert-if-absent. Does not compare values or key lookups. Also: no element-dropping adapter on any access path; the writer passes header, records and string block on every success path; the declared string-block size is enforced; every access path locates the string block by the header formula; the key map stores record indices. Wave 5: random access strides by header.record_size; string-collector arms are unguarded; pre-allocation caps bound only the allocation. Wave 6: every per-record decoder builds Value::Array exactly when the field is an array (sizes None,0,1,2,3); Schema::validate rejects key index i iff i >= field count. Wave 7: record_size is the plain sum of the field sizes.",
+    "claim": "Decides that all nine FieldType variants have one width across size/decode/encode/default tables, that header write order/widths equal header read, that the written field_count follows the validator's counting rule, that all access paths share one decoder, and that string interning is insert-if-absent. Does not compare values or key lookups. Also: no element-dropping adapter on any access path; the writer passes header, records and string block on every success path; the declared string-block size is enforced; every access path locates the string block by the header formula; the key map stores record indices. Wave 5: random access strides by header.record_size; string-collector arms are unguarded; pre-allocation caps bound only the allocation. Wave 6: every per-record decoder builds Value::Array exactly when the field is an array (sizes None,0,1,2,3); Schema::validate rejects key index i iff i >= field count. Wave 7: record_size is the plain sum of the field sizes. Wave 8: the key index is built whenever the schema names a key; every string resolver accepts every offset inside the block.",
     "note": "Trusted: to_le_bytes/read_exact widths from operand types.",
     "assumptions": ["record layout = concatenation of field encodings in schema order"],
     "explanation": "FieldType::size, field_parser::parse_field_value, DbcWriter::write_value + default arm, DbcHeader::parse vs DbcWriter header block, Schema::validate vs writer field_count, the four parse_field_value forwarders, build_string_block.",
